@@ -238,6 +238,12 @@ static void accResult(const char *ent, const char *attr, const char *kind, bool 
 static void lstResult(const char *ent, const char *owner, const char *attr, const char *kind, bool ok, const std::string &got) {
     std::cout << "LST " << ent << " " << owner << "." << attr << " " << kind << " " << (ok ? "ok" : "FAIL") << " listed=" << got << "\n";
 }
+// an entity reference assigned to an attribute of a select type and written
+static void selEntResult(const char *attr, const char *ent, bool ok, const std::string &wrote) {
+    std::string w;
+    for (size_t i = 0; i < wrote.size(); i++) if (wrote[i]) w += (wrote[i] == ' ' || wrote[i] == '\n') ? '_' : wrote[i];
+    std::cout << "SELENT " << attr << " " << ent << " " << (ok ? "ok" : "FAIL") << " wrote=" << w << "\n";
+}
 static SDAI_Application_instance *mk(const char *pretty) {
     SDAI_Application_instance *i = g_reg->ObjCreate(pretty);
     return (i == S_ENTITY_NULL) ? 0 : i;
@@ -339,6 +345,18 @@ static int run() {
     while ((td = reg.NextType())) types[lower(td->Name())] = td;
     for (std::map<std::string, const EntityDescriptor *>::iterator i = ents.begin(); i != ents.end(); ++i) dumpEntity(i->second);
     for (std::map<std::string, const TypeDescriptor *>::iterator i = types.begin(); i != types.end(); ++i) dumpType(i->second);
+    // which entities a select type can hold: the three dictionary queries, for every (select, entity) pair
+    for (std::map<std::string, const TypeDescriptor *>::iterator i = types.begin(); i != types.end(); ++i) {
+        const SelectTypeDescriptor *st = dynamic_cast<const SelectTypeDescriptor *>(i->second);
+        if (!st) continue;
+        std::string byTd, byName, bySet;
+        for (std::map<std::string, const EntityDescriptor *>::iterator e = ents.begin(); e != ents.end(); ++e) {
+            if (st->CanBe(e->second)) byTd += (byTd.empty() ? "" : ",") + e->first;
+            if (st->CanBe(e->second->Name())) byName += (byName.empty() ? "" : ",") + e->first;
+            if (st->CanBeSet(e->second->Name(), 0)) bySet += (bySet.empty() ? "" : ",") + e->first;
+        }
+        std::cout << "CANBE " << i->first << " td=" << byTd << " name=" << byName << " set=" << bySet << "\n";
+    }
     std::cout.flush();
     for (std::map<std::string, const EntityDescriptor *>::iterator i = ents.begin(); i != ents.end(); ++i) {
         dumpInstance(reg, i->second);
